@@ -7,8 +7,8 @@ package carv1
 //@ func ReadHeader
 //@   modifies pos(r)
 //@   let hb, lerr := call[util.LdRead#0]
-//@   ensures consumed [C01,C03,C07,C12,C14]: err == nil ==> result0 != nil && pos(r) == old(pos(r)) + vsize(enclen(result0)) + enclen(result0)
-//@   ensures bounded [C09]: err == nil ==> enclen(result0) <= maxReadBytes
+//@   ensures consumed [C01,C03,C07,C12,C14]: err == nil ==> result0 != nil && pos(r) == old(pos(r)) + vsize(rawlen(result0)) + rawlen(result0)
+//@   ensures bounded [C09]: err == nil ==> rawlen(result0) <= maxReadBytes
 //@   ensures eof_clean [C02]: err == io.EOF ==> pos(r) == old(pos(r))
 //@   ensures too_large [C09]: lerr == util.ErrSectionTooLarge ==> err == util.ErrHeaderTooLarge
 //@   ensures monotone: pos(r) >= old(pos(r))
